@@ -498,8 +498,62 @@ def shared_state_rules(prog, chk, pid):
         pass
 
 
+def stream_helper_rules(prog, chk, pid):
+    """encrypt_stream / decrypt_stream: every chunk the input stream delivers is fed and written, in order, until the stream is
+    exhausted (an EMPTY read -- a short read is not the end of the input), then the feeder is finalised and its output written"""
+    P = lambda s_: "%s.%s" % (pid, s_)
+    fi = prog.func(BFQ + "._feed_stream")
+    where = "%s:%d" % (fi.file, fi.lineno)
+    ex = Exec(prog, policy=lambda e, f, d: False)
+    res = ex.run(fi)
+    ev = res.events
+    in_loop = lambda e: any(f[0] == "loop" for f in e.ctx)
+    reads = [e for e in ev if e.kind == "mcall" and e.d["name"] == "read" and in_loop(e)]
+    ok, why = len(reads) == 1 and unsnap(reads[0].d["recv"]).op == "param" and unsnap(reads[0].d["recv"]).args[0] == fi.params[1], "the loop does not read the input stream exactly once per iteration"
+    if ok:
+        chunk = unsnap(reads[0].d["result"])
+        breaks = [g for g in ev if g.kind == "guard" and g.d.get("term") == "break"]
+        others = [e for e in ev if e.kind in ("break", "return", "raise") and in_loop(e)]
+        good = len(breaks) == 1 and len([e for e in others if e.kind == "break"]) == 1 and not [e for e in others if e.kind != "break"]
+        if good:
+            from bfsa.guard import raise_rel
+
+            r = raise_rel(breaks[0])
+            good = r[0] == "rel" and r[1] == "Falsy" and unsnap(r[2]) is chunk
+        ok, why = good, "the loop ends on something other than an empty read (for example a short read): input delivered afterwards is dropped"
+    if ok:
+        feeds = [e for e in ev if e.kind == "mcall" and e.d["name"] == "feed" and in_loop(e)]
+        writes = [e for e in ev if e.kind == "mcall" and e.d["name"] == "write" and in_loop(e)]
+        ok = (len(feeds) == 1 and len(writes) == 1 and len(feeds[0].d["args"]) == 1 and unsnap(feeds[0].d["args"][0]) is chunk and unsnap(writes[0].d["args"][0]) is unsnap(feeds[0].d["result"])
+              and not [f for f in feeds[0].ctx if f[0] == "if"] and not [f for f in writes[0].ctx if f[0] == "if"])
+        why = "a chunk is not fed unchanged, or its converted output is not written, on every iteration"
+    if ok:
+        tail_f = [e for e in ev if e.kind == "mcall" and e.d["name"] == "feed" and not in_loop(e)]
+        tail_w = [e for e in ev if e.kind == "mcall" and e.d["name"] == "write" and not in_loop(e)]
+        ok = len(tail_f) == 1 and not tail_f[0].d["args"] and len(tail_w) == 1 and unsnap(tail_w[0].d["args"][0]) is unsnap(tail_f[0].d["result"]) and tail_f[0].uid > reads[0].uid
+        why = "after the loop the feeder is not finalised with feed() and its output written"
+    chk.require(ok, P("stream-helper-loop"), fi.qualname, "while True: chunk = in.read(n); if not chunk: break; out.write(feeder.feed(chunk)) ... out.write(feeder.feed())", where,
+                "the stream helpers consume the whole input: only an empty read ends the loop, every chunk is fed and written, then the final block", why)
+    for nm, cls in (("encrypt_stream", "Encrypter"), ("decrypt_stream", "Decrypter")):
+        f2 = prog.func(BFQ + "." + nm)
+        e2 = Exec(prog, policy=lambda e, f, d: False)
+        r2 = e2.run(f2)
+        news = [e for e in r2.events if e.kind == "new" and e.d["cls"].name == cls]
+        calls = [e for e in r2.events if e.kind == "call" and e.d["callee"].name == "_feed_stream"]
+        ok2 = len(news) == 1 and len(calls) == 1
+        if ok2:
+            a = news[0].d["args"]
+            kw = news[0].d["kwargs"]
+            ok2 = unsnap(a[0]).op == "param" and unsnap(a[0]).args[0] == f2.params[0] and unsnap(kw.get("padding", a[1] if len(a) > 1 else NONE)).op == "param"
+            ca = [unsnap(x) for x in calls[0].d["args"]]
+            ok2 = ok2 and ca[0] is unsnap(news[0].d["result"]) and [x.args[0] for x in ca[1:4] if x.op == "param"] == [f2.params[1], f2.params[2], f2.params[3]]
+        chk.require(ok2, P("stream-helper-wiring"), f2.qualname, "%s(mode, padding=padding); _feed_stream(feeder, in_stream, out_stream, block_size)" % cls, "%s:%d" % (f2.file, f2.lineno),
+                    "the helper builds the matching feeder for the given mode and padding and pumps in_stream to out_stream", "%s is not wired as documented" % nm)
+
+
 def run_all(prog, chk, pid, tier):
     mode_call_rules(prog, chk, pid, tier)
     feeder_rules(prog, chk, pid, tier)
     pkcs7_rules(prog, chk, pid)
     shared_state_rules(prog, chk, pid)
+    stream_helper_rules(prog, chk, pid)
